@@ -61,6 +61,21 @@ def registry():
             nm = 'allocated_score_dist_' + qn
             _REG[nm] = dict(name=nm, vtype='score', kind='dist', make=(lambda qn=qn: card.AllocatedScoreDistributor(qn)), family=None,
                             scale_free=(qn != 'droop'), seats=True, max_k=1000, det=True, needs=None, exact=True, min_cands=1)
+        # open lists: evaluate(votes, n_seats, candidate_list) - the list order is the sorted candidate names here
+        import votelib.evaluate.openlist as ol, votelib.evaluate.core as core
+        from fractions import Fraction as _F
+
+        class _WithList:
+            def __init__(self, inner):
+                self.inner = inner
+
+            def evaluate(self, votes, n_seats):
+                return self.inner.evaluate(votes, n_seats, sorted(votes))
+        for nm, mk in (('list_order_plurality', lambda: _WithList(ol.ListOrderTieBreaker(core.Plurality()))),
+                       ('open_list_jump', lambda: _WithList(ol.ThresholdOpenList(jump_fraction=_F(1, 10)))),
+                       ('open_list_quota', lambda: _WithList(ol.ThresholdOpenList(quota_function='droop', quota_fraction=_F(1, 2))))):
+            _REG[nm] = dict(name=nm, vtype='simple', kind='sel', make=mk, family=None, scale_free=True, seats=True, max_k=None, det=True,
+                            needs=None, exact=True, min_cands=1)
     return _REG
 
 
